@@ -193,6 +193,7 @@ Proof.
   induction kn as [|[k n] kn IH]; intros e e' er; simpl.
   - intros [= <- <-] x H; exact H.
   - destruct (e !! k) as [c|] eqn:Ek; [|intros [= <- <-] x H; exact H].
+    destruct (name_eqb n ""); [intros [= <- <-] x H; exact H|].
     intros H. apply IH in H. intros x Hx. specialize (H x Hx).
     destruct (decide (x = k)) as [->|Hne]; [eauto|]. rewrite lookup_insert_ne in H by congruence. exact H.
 Qed.
